@@ -5,7 +5,9 @@ import os, re
 
 def source_constants():
     src = open("/repo/src/gamma.rs").read()
-    body = src[src.index("pub fn inverse_gamma_lr_impl"):src.index("#[cfg(test)]")]
+    # the whole non-test part of the file: constants may live in `const` items outside the function body
+    cut = src.find("#[cfg(test)]")
+    body = src if cut < 0 else src[:cut]
     body = re.sub(r"//[^\n]*", "", body)
     toks = re.findall(r"(?<![\w.])(\d[\d_]*(?:\.[\d_]*)?(?:[eE][-+]?\d+)?(?:f64)?)", body)
     lits = []
@@ -24,6 +26,6 @@ def source_constants():
 
 def compare():
     a_src, a_mod = source_constants()
-    missing = [x for x in a_src if x not in a_mod]
+    missing = [x for x in a_src if x not in a_mod and x != 0.0]
     extra = [x for x in a_mod if x not in a_src and x not in (0.0, 2.220446049250313e-16)]   # 0.0 and f64::EPSILON are spelled differently in the source
     return len(a_src), missing, extra
